@@ -62,6 +62,9 @@ CLAIMED = {
  "C19": dict(tech=S, ref="4/C19",
    text="Model checking, stateless shape: every cell of depths 0..3 / 0..5 and border-class cells (incl. all cells next to the 8 three-cell points) of every deeper depth x 7x7 in-cell offsets (incl. the quadrant lines 0.5 +- 1e-4), and all plane-lattice / border-class positions with ulp nudges and turned longitudes x 30 depths: four finite weights >= 0 summing to 1, a containing cell present, all cells = that cell or lattice neighbours of it, weight 1 at the centre, weighted mean of the centres = the position when the four cells share a base cell, a weight-0 entry for a missing corner.",
    note="Trusted: R1/R2. Tolerances 1e-9 + 64 eps nside (the position is only known to that many cells)."),
+ "C20": dict(tech="exhaustive schedule exploration of the real code under a controlled scheduler (preemption-bounded DFS, fresh process per schedule) + stateright explicit-state model generated from the code's recorded hook sequence, every model trace replayed on the implementation", ref="4/C20", engine="c20sched",
+   text="Model checking, interleaving shape. Engine (a): 2-3 real threads execute the real get_or_create (Layer table, C2V table directly and through largest_center_to_vertex_distance, first and second use, same and different depths) under a cooperative scheduler at the cfg(cdshealpix_verif) hook points; ALL scheduling choices are explored depth-first (unbounded preemptions for 2 threads x 1 call, bound 1-3 otherwise; a fresh process per schedule, each run on 4 (quick) / 30 (thorough) depths); per schedule: construction counter = 1, identical object for all threads, results through the table = single-threaded reference, no panic, no deadlock, and a vector-clock happens-before monitor (edges: program order + Once release/acquire only) reports any slot read not ordered with the slot write. Engine (b): a stateright model whose per-thread program is generated from the hook sequence RECORDED on the real code, with the slot store split in two (torn observation); always-properties checked over all states; every maximal trace (projected on scheduler decisions) is replayed on the implementation and must produce the same event sequence and counters; for 2 threads x 1 call the number of model traces equals the number of schedules explored by engine (a).",
+   note="Trusted: hook placement (scheduling points = accesses to the slot, Once entry/exit, constructor entry/exit); sequential consistency between points; std::sync::Once modelled as blocking while another thread is inside the closure. Weak-memory effects beyond the Once edges and > 3 threads are outside the bound."),
 }
 props = [json.loads(l) for l in open(os.path.join(V, "properties.jsonl"))]
 m = {
@@ -77,6 +80,10 @@ m = {
  "engines": [
   {"name": "hpxmc", "path": "engine/hpxmc", "serves_properties": sorted(k for k in CLAIMED if k != "C20"),
    "kind_free_text": "Rust: finite-alphabet enumerators, explicit-state BFS, reference models R1-R6, evidence/replay writer; links the real crate from /repo"},
+  {"name": "c20sched", "path": "engine/c20sched", "serves_properties": ["C20"],
+   "kind_free_text": "Rust: stateless schedule explorer (parent) + cooperative scheduler and happens-before monitor on the real code (child process per schedule), model-trace replayer"},
+  {"name": "c20model", "path": "engine/c20model", "serves_properties": ["C20"],
+   "kind_free_text": "Rust + stateright 0.31: abstract model generated from the recorded hook sequence, always-properties, export of all maximal traces"},
  ],
  "checks": [],
  "not_applicable": [],
